@@ -381,6 +381,28 @@ def write_replay(prop, clause, fail, outdir=None):
 
 
 # --------------------------------------------------------------------------- main driver
+def _pool(n):
+    """fork pool whose workers are NOT daemonic: joblib answers effective_n_jobs()==1 inside a daemonic process, so code that sizes its
+    work by effective_n_jobs would silently run its sequential branch in the shards and its parallel branch for a real caller"""
+    import multiprocessing as mp
+    import multiprocessing.pool
+    ctx = mp.get_context("fork")
+
+    class _Process(ctx.Process):
+        @property
+        def daemon(self):
+            return False
+
+        @daemon.setter
+        def daemon(self, value):
+            pass
+
+    class _Context(type(ctx)):
+        Process = _Process
+
+    return multiprocessing.pool.Pool(n, maxtasksperchild=1, context=_Context())
+
+
 def run_property(modname, tier, seed, replay=None, only_clause=None, jobs=None, scale=1.0):
     import importlib
     import multiprocessing as mp
@@ -451,8 +473,7 @@ def run_property(modname, tier, seed, replay=None, only_clause=None, jobs=None, 
             tasks.append((modname, c.name, tier, s, ns, per, derive_seed(seed, prop, c.name, s), budget))
     jobs = jobs or int(os.environ.get("VF_JOBS", "16"))
     if jobs > 1 and len(tasks) > 1:
-        ctx = mp.get_context("fork")
-        with ctx.Pool(min(jobs, len(tasks)), maxtasksperchild=1) as pool:
+        with _pool(min(jobs, len(tasks))) as pool:
             results = pool.map(run_shard, tasks, chunksize=1)
     else:
         results = [run_shard(t) for t in tasks]
